@@ -247,11 +247,104 @@ def gen_transform(fn):
     return out, [ast.unparse(fn)]
 
 
+def gen_subsample(fn):
+    """auxiliary.subsample: the two-pointer scan for one series (status2 / status3 recurse into the same function)"""
+    if [a.arg for a in fn.args.args] != ["report_times", "times", "status1", "status2", "status3"]:
+        raise Unsupported("subsample parameters")
+    b = body_of(fn)
+    g = b[0]
+    if not (isinstance(g, ast.If) and isinstance(g.test, ast.Compare) and ast.unparse(g.test.left) == "report_times[0]"
+            and ast.unparse(g.test.comparators[0]) == "times[0]" and type(g.test.ops[0]) in CMP and isinstance(g.body[0], ast.Raise)):
+        raise Unsupported("subsample: first guard")
+    gop = CMP[type(g.test.ops[0])]
+    if [ast.unparse(x) for x in b[1:4]] != ["report_status1 = []", "next_report_index = 0", "next_observation_index = 0"]:
+        raise Unsupported("subsample: initialisation")
+    w = b[4]
+    if not (isinstance(w, ast.While) and isinstance(w.test, ast.Compare) and ast.unparse(w.test.left) == "next_report_index"
+            and ast.unparse(w.test.comparators[0]) == "len(report_times)" and isinstance(w.test.ops[0], ast.Lt)):
+        raise Unsupported("subsample: outer loop")
+    inner, app, inc = w.body
+    if not (isinstance(inner, ast.While) and isinstance(inner.test, ast.BoolOp) and isinstance(inner.test.op, ast.And) and len(inner.test.values) == 2):
+        raise Unsupported("subsample: inner loop")
+    c1, c2 = inner.test.values
+    if not (ast.unparse(c1) == "next_observation_index < len(times)" and isinstance(c2, ast.Compare)
+            and ast.unparse(c2.left) == "times[next_observation_index]" and ast.unparse(c2.comparators[0]) == "report_times[next_report_index]"
+            and type(c2.ops[0]) in CMP):
+        raise Unsupported("subsample: inner condition")
+    iop = CMP[type(c2.ops[0])]
+    if [ast.unparse(x) for x in inner.body] != ["candidate = status1[next_observation_index]", "next_observation_index += 1"] \
+            or ast.unparse(app) != "report_status1.append(candidate)" or ast.unparse(inc) != "next_report_index += 1":
+        raise Unsupported("subsample: loop bodies")
+    rest = [ast.unparse(x) for x in b[5:]]
+    want_rest = ["report_status1 = np.array(report_status1)",
+                 "if status2 is not None:\n    if status3 is not None:\n        report_status2, report_status3 = subsample(report_times, times, status2, status3)\n"
+                 "        return (report_status1, report_status2, report_status3)\n    else:\n        report_status2 = subsample(report_times, times, status2)\n"
+                 "        return (report_status1, report_status2)\nelse:\n    return report_status1"]
+    if rest != want_rest:
+        raise Unsupported("subsample: epilogue changed: %r" % rest)
+    out = (f"/-- generated from the inner `while` of `subsample` (auxiliary.py:{inner.lineno}): advance the observation pointer -/\n"
+           "def subsample_inner {α : Type} (times : List Rat) (status1 : List α) (r : Rat) : Nat → Nat → Option α → Except String (Nat × Option α)\n"
+           '  | 0, _, _ => throw "fuel"\n'
+           "  | fuel + 1, next_observation_index, candidate =>\n"
+           "    if next_observation_index < times.length then do\n"
+           "      let tk ← PyRT.pyIndex times (next_observation_index : Int)\n"
+           f"      if tk {iop} r then do\n"
+           "        let candidate ← PyRT.pyIndex status1 (next_observation_index : Int)\n"
+           "        subsample_inner times status1 r fuel (next_observation_index + 1) (some candidate)\n"
+           "      else pure (next_observation_index, candidate)\n"
+           "    else pure (next_observation_index, candidate)\n\n"
+           f"/-- generated from the outer `while` of `subsample` (auxiliary.py:{w.lineno}) -/\n"
+           "def subsample_outer {α : Type} (report_times times : List Rat) (status1 : List α) :\n"
+           "    Nat → Nat → Nat → Option α → List α → Except String (List α)\n"
+           '  | 0, _, _, _, _ => throw "fuel"\n'
+           "  | fuel + 1, next_report_index, next_observation_index, candidate, report_status1 =>\n"
+           "    if next_report_index < report_times.length then do\n"
+           "      let r ← PyRT.pyIndex report_times (next_report_index : Int)\n"
+           "      let (next_observation_index, candidate) ← subsample_inner times status1 r (times.length + 1) next_observation_index candidate\n"
+           '      let c ← (match candidate with | some c => pure c | none => throw "UnboundLocalError")\n'
+           "      subsample_outer report_times times status1 fuel (next_report_index + 1) next_observation_index candidate (report_status1 ++ [c])\n"
+           "    else pure report_status1\n\n"
+           f"/-- generated from `subsample` (auxiliary.py:{fn.lineno}) for one series -/\n"
+           "def subsample {α : Type} (report_times times : List Rat) (status1 : List α) : Except String (List α) := do\n"
+           "  let r0 ← PyRT.pyIndex report_times 0\n"
+           "  let t0 ← PyRT.pyIndex times 0\n"
+           f'  if r0 {gop} t0 then throw "EoNError" else\n'
+           "  subsample_outer report_times times status1 (report_times.length + 1) 0 0 none []\n")
+    return out, [ast.unparse(fn)]
+
+
+def gen_time_shift(fn):
+    if [a.arg for a in fn.args.args] != ["times", "L", "threshold"]:
+        raise Unsupported("get_time_shift parameters")
+    b = body_of(fn)
+    if len(b) != 2 or ast.unparse(b[1]) != "return t" or not isinstance(b[0], ast.For):
+        raise Unsupported("get_time_shift shape")
+    lp = b[0]
+    if ast.unparse(lp.target) not in ("(index, t)", "index, t") or ast.unparse(lp.iter) != "enumerate(times)" or len(lp.body) != 1:
+        raise Unsupported("get_time_shift loop")
+    c = lp.body[0]
+    if not (isinstance(c, ast.If) and isinstance(c.test, ast.Compare) and ast.unparse(c.test.left) == "L[index]"
+            and ast.unparse(c.test.comparators[0]) == "threshold" and type(c.test.ops[0]) in CMP
+            and len(c.body) == 1 and isinstance(c.body[0], ast.Break) and not c.orelse):
+        raise Unsupported("get_time_shift test")
+    op = CMP[type(c.test.ops[0])]
+    out = (f"/-- generated from `get_time_shift` (auxiliary.py:{fn.lineno}): the loop variable `t` after the `for ... break` -/\n"
+           "def get_time_shift_loop (L : List Rat) (threshold : Rat) : List (Nat × Rat) → Option Rat → Except String (Option Rat)\n"
+           "  | [], t => pure t\n"
+           "  | (index, t) :: rest, _ => do\n"
+           "    let l ← PyRT.pyIndex L (index : Int)\n"
+           f"    if l {op} threshold then pure (some t) else get_time_shift_loop L threshold rest (some t)\n\n"
+           "def get_time_shift (times L : List Rat) (threshold : Rat) : Except String Rat := do\n"
+           "  let t ← get_time_shift_loop L threshold ((List.range times.length).zip times) none\n"
+           '  match t with | some t => pure t | none => throw "NameError"\n')
+    return out, [ast.unparse(fn)]
+
+
 HEADER = '''import EoNVerif.Gen.PyRT
 /-!
 GENERATED by harness/pyinvest2lean.py from `Simulation_Investigation.node_status / get_statuses / summary`
-(EoN/simulation_investigation.py) and `_transform_to_node_history_` (EoN/simulation.py) — do not edit; regenerated on
-every check run.   source sha1: {sha}
+(EoN/simulation_investigation.py) and `_transform_to_node_history_` (EoN/simulation.py), `subsample` / `get_time_shift` (EoN/auxiliary.py) — do not edit;
+regenerated on every check run.   source sha1: {sha}
 -/
 namespace GenInvest
 
@@ -280,6 +373,18 @@ def translate(repo=REPO):
         sources += src
     except (Unsupported, KeyError, IndexError, StopIteration, AttributeError) as ex:
         errors["_transform_to_node_history_"] = f"unsupported: {ex}"
+    try:
+        tree3 = ast.parse(open(os.path.join(repo, "EoN", "auxiliary.py")).read())
+        fns3 = {n.name: n for n in tree3.body if isinstance(n, ast.FunctionDef)}
+        for name, gen in (("subsample", gen_subsample), ("get_time_shift", gen_time_shift)):
+            try:
+                text, src = gen(fns3[name])
+                parts.append(text)
+                sources += src
+            except (Unsupported, KeyError, IndexError, ValueError, AttributeError) as ex:
+                errors[name] = f"unsupported: {ex}"
+    except Exception as ex:
+        errors["auxiliary.py"] = "not readable: %r" % ex
     sha = hashlib.sha1("\n".join(sources).encode()).hexdigest()
     return HEADER.format(sha=sha) + "\n".join(parts) + "\nend GenInvest\n", errors
 
